@@ -681,6 +681,9 @@ structure ArgReport where
   boolRange : Bool
   deriving DecidableEq, Repr
 
+/-- the finding *id* invalidFunctionArg is on the call when either of its two messages is -/
+def ArgReport.idInvalidArg (r : ArgReport) : Bool := r.invalidValue || r.boolRange
+
 /-- The body of the argument loop of CheckFunctions::invalidFunctionUsage for an argument of a matching library call:
 `valid` = the `<valid>` text of its declaration ("" when there is none), `notbool` = `<not-bool/>` declared,
 `isBool` = `astIsBool(argtok)`, `known` = the Known integer value of the argument if value flow has one.
